@@ -10,6 +10,7 @@ import (
 	"path/filepath"
 	"strings"
 	"sync"
+	"sync/atomic"
 	"testing"
 
 	"github.com/go-python/gpython/py"
@@ -397,6 +398,7 @@ func TestC08Race(t *testing.T) {
 		// two REPLs on two contexts at once
 		if r.On("c08.repl.concurrent") {
 			var wg2 sync.WaitGroup
+			var replErr atomic.Value
 			for i := 0; i < 2; i++ {
 				wg2.Add(1)
 				go func(i int) {
@@ -404,15 +406,28 @@ func TestC08Race(t *testing.T) {
 					ctx, _ := NewCtx(nil, nil)
 					defer ctx.Close()
 					rp := repl.New(ctx)
-					rp.SetUI(&c20UI{})
+					ui := &c20UI{}
+					rp.SetUI(ui)
+					var want []string
 					for n := 0; n < 20; n++ {
 						rp.Run(fmt.Sprintf("x = %d", i*100+n))
 						rp.Run("x + 1")
+						want = append(want, fmt.Sprint(i*100+n+1))
+					}
+					// every echo of this REPL, and only those, reached its own UI
+					if fmt.Sprint(ui.prints) != fmt.Sprint(want) {
+						replErr.Store(fmt.Sprintf("REPL %d: its UI received %v, expected %v", i, ui.prints, want))
 					}
 				}(i)
 			}
 			wg2.Wait()
 			r.Class("two-repls")
+			r.Count("two-repls", true)
+			if e, _ := replErr.Load().(string); e != "" {
+				if !r.Mismatch(&Case{Kind: "c08repl", Sig: "repl-echo-misrouted", Program: "two REPLs on two contexts, 20 x (x = n; x + 1) each", Expected: "each UI receives its own echoes", Actual: e}) {
+					rt.Fatalf("C08 REPL echo misrouted")
+				}
+			}
 		}
 	})
 }
